@@ -82,6 +82,55 @@ def parse_res(r):
             "src": [x for x in m.group(6).split(",") if x], "deact": m.group(7) == "true"}
 
 
+RAW = re.compile(r"raw latest=\[(.*?)\] metas=\[(.*?)\] evrefs=\[(.*?)\] conf=\[(.*?)\] cc=(\S+) dc=(\S+) tx=\[(.*?)\] docs=\[(.*?)\]$")
+
+
+def check_raw_line(op, seq_line, line, i, flag):
+    """the literal shelves after the sequence (vRawDump), judged against the op alone: txRefV2 / documentsV2 hold exactly what
+    every delivered event published (content addressed), metadataV2 / latestV2 / eventsV2 number the versions 0..n-1,
+    statsV2 holds the 4-byte big-endian counts of conflictedV2 and latestV2"""
+    if re.match(r"^((adderr|addpanic|addswallowed|restarterr)@\S+ )", seq_line):
+        return  # an unexpected Add outcome is reported by the seq-line oracles; the expectations below assume none
+    m = RAW.match(line)
+    if not m:
+        flag("raw-shelves", "shelves-unreadable", f"raw shelf dump: {line[:80]}", i)
+        return
+    spl = lambda x: [t for t in x.split(",") if t]
+    latest, metas, evrefs, conf, cc, dc, txs, docs = (spl(m.group(1)), spl(m.group(2)), spl(m.group(3)), spl(m.group(4)), m.group(5), m.group(6), spl(m.group(7)), spl(m.group(8)))
+    fail = op.get("fail") or []
+    tx1, tx2 = set(), {}
+    for pos, k in enumerate(op["arrival"]):
+        code = fail[pos] if pos < len(fail) else 0
+        if code not in (1, 101, 102):
+            tx1.add(k)
+        if code in (0, 4, 51, 52):
+            tx2.setdefault(op["events"][k]["doc"]["id"], set()).add(k)
+    bad = [d for d in docs if d.endswith("!key") or d.startswith("?")]
+    if bad:
+        flag("raw-shelves", "document-shelf-not-content-addressed", f"documentsV2 holds a value whose SHA-256 is not its key / that does not parse: {bad[:2]}", i)
+    want_tx = sorted({op["events"][k]["ref"][:10] + ">" + content_name(op["events"][k]["doc"]) for k in tx1})
+    if txs != want_tx:
+        flag("raw-shelves", "transaction-index-wrong", f"txRefV2 = {txs[:3]}.. expected {want_tx[:3]}.. ({len(txs)} vs {len(want_tx)} entries)", i)
+    missing = [content_name(op["events"][k]["doc"]) for k in tx1 if content_name(op["events"][k]["doc"]) not in docs]
+    if missing:
+        flag("raw-shelves", "published-document-not-on-document-shelf", f"documentsV2 lacks {missing[:2]}", i)
+    want_latest = sorted(f"{d}>{d}{len(ks) - 1}" for d, ks in tx2.items())
+    want_metas = sorted(f"{d}{v}:v{v}" for d, ks in tx2.items() for v in range(len(ks)))
+    want_ev = sorted(d + ":" + "/".join(f"{d}{v}" for v in range(len(ks))) for d, ks in tx2.items())
+    if latest != want_latest:
+        flag("raw-shelves", "latest-shelf-wrong", f"latestV2 = {latest} expected {want_latest}", i)
+    if metas != want_metas:
+        flag("raw-shelves", "metadata-shelf-keys-wrong", f"metadataV2 keys = {metas[:6]} expected {want_metas[:6]}", i)
+    if evrefs != want_ev:
+        flag("raw-shelves", "event-list-metarefs-wrong", f"eventsV2 MetaRefs = {evrefs} expected {want_ev}", i)
+    obs = parse_line(re.sub(r"^((adderr|addpanic|addswallowed|restarterr)@\S+ )+", "", seq_line))
+    want_conf = sorted(d + ":00" for d, pr in obs["dids"].items() if pr.get("conflicted=") == "true")
+    if conf != want_conf:
+        flag("raw-shelves", "conflicted-shelf-wrong", f"conflictedV2 = {conf} but the conflicted DIDs are {want_conf}", i)
+    if tx2 and (cc != "%08x" % len(conf) or dc != "%08x" % len(latest)):
+        flag("raw-shelves", "stats-shelf-encoding-wrong", f"statsV2 conflictedCount={cc} documentCount={dc} for {len(conf)} conflicted / {len(latest)} latest keys", i)
+
+
 def check_seq_line(op, line, i, flag):
     """clauses of the property evaluated on ONE full observation of the implementation, against expectations computed
     from the event set alone (independent of the Lean model)"""
@@ -281,10 +330,15 @@ def run(ctx):
     feats = Counter()
     distinct = set()
     seq_of = {}          # line index -> index of the seq op it belongs to
+    raw_n = 0
     last_seq = None
     for i, line in enumerate(impl):
         op = json.loads(ops[i]) if i < len(ops) and ops[i] else {}
         kind = "again"
+        if op.get("op") == "raw":   # the literal shelves: order-dependent (intermediate merged documents stay behind)
+            seq_of[i] = last_seq
+            raw_n += 1
+            continue
         if op.get("op") == "seq":
             kind = "seq"
             last_seq = i
@@ -378,6 +432,9 @@ def run(ctx):
         if op.get("op") == "seq":
             check_seq_line(op, line, i, flag)
             full_of_seq[i] = parse_line(strip_add(line))
+        elif op.get("op") == "raw":
+            if seq_of.get(i) is not None:
+                check_raw_line(json.loads(ops[seq_of[i]]), impl[seq_of[i]], line, i, flag)
         elif seq_of.get(i) in full_of_seq:
             # after a restart (same database, new store object) nothing observable may change
             if line.startswith("restarterr") or line.startswith("observepanic"):
@@ -392,7 +449,8 @@ def run(ctx):
                         flag("restart-changes-observation", "restart-changes-" + label.rstrip(":="), f"{label} of {did} differs after re-opening the store", i)
                         break
     ctx.oblige("oracle:clauses(impl): deactivated-never-active, covering-update-resolves, add-never-refused, history=sorted-events, "
-               "counters=iterators=per-DID-flags, conflicted/iterate entries=latest, resolve answers satisfy their filters, restart changes nothing",
+               "counters=iterators=per-DID-flags, conflicted/iterate entries=latest, resolve answers satisfy their filters, restart changes nothing, "
+               "literal shelves (txRef/documents content addressed and complete, version keys 0..n-1, stats = 4-byte big-endian counts)",
                not clause_bad, str(dict(clause_bad)))
     if known_sigs:
         ctx.notes.append("open known findings observed on this run (cases): " + json.dumps(dict(known_sigs)))
@@ -428,5 +486,6 @@ def run(ctx):
                        "allow-deactivated combinations / unknown values), ConflictedCount, DocumentCount, Conflicted() entries, Iterate() order + entries, "
                        "Finder.Find(IsActive), HistorySinceVersion(0..n+1), unknown DID; then the cache-dependent part again after re-opening the store. "
                        "distinct_nontrivial = distinct (set, arrival, failure codes) with >=2 events")
+    feats["raw-shelf-dumps"] = raw_n
     ctx.cov["input_distribution"] = {"set_size_histogram": dict(sorted(sizes.items())), "features": dict(feats), "event_sets": len(by_set)}
     ctx.cov["samples"] = [json.loads(ops[0])["arrival"] if ops and ops[0] else [], impl[0][:400] if impl else ""]
